@@ -236,6 +236,10 @@ func walk(v reflect.Value, path, parent string, out *[]Site, owner *reflect.Valu
 				}
 			}
 			*out = append(*out, s)
+			// and the sites inside the current object (its key block, ...)
+			if !v.IsNil() && v.Elem().Kind() == reflect.Pointer && v.Elem().Elem().Kind() == reflect.Struct {
+				walk(v.Elem().Elem(), path+"<"+v.Elem().Elem().Type().Name()+">", parent, out, nil)
+			}
 			return
 		}
 		if !v.IsNil() && v.Elem().Kind() == reflect.Pointer && v.Elem().Elem().Kind() == reflect.Struct {
